@@ -241,9 +241,13 @@ def run_cases_v(name, body, timeout=600):
     open(p, "w").write(body)
     rc, out = sh("timeout %d coqc -q -noglob -Q %s TsrunV %s" % (timeout, os.path.join(COQ, "theories"), p),
                  cwd=d, timeout=timeout + 30)
+    for ext in (".vo", ".vok", ".vos", ".glob"):
+        q = os.path.join(d, name + ext)
+        if os.path.exists(q):
+            os.remove(q)
     if rc != 0:
         return None, out
-    m = re.search(r'=\s*"(.*)"\s*:\s*string', out, re.S)
+    m = re.search(r'=\s*"(.*)"(?:%string)?\s*:\s*string', out, re.S)
     if not m:
         return None, out
     return m.group(1).replace('""', '"').split("\n"), out
